@@ -22,7 +22,7 @@ CLAIMED = {
              "instants: offset_exact, add_inverse, add_refuses (all int64 offsets incl. INT64_MIN), rate_zero, lt_iff/le_iff, "
              "addTimeOffset_no_overflow, and the block invariant earliest_le proved by induction over all arrival orders of "
              "timed/untimed records (offsets_nonneg_and_recovered). Tied to the code by differential runs of the real "
-             "Timestamp and CdnsBlock (grid, boundaries, random, block histories written and read back) under UBSan.",
+             "Timestamp and CdnsBlock (grid, boundaries, random, block histories written and read back) under UBSan. Histories also continue on copies of the block (copy construction / assignment mid-history). C01.record_times_recovered lifts the invariant to every block the builder model produces.",
         note="Trusted: Lean kernel + propext/Classical.choice/Quot.sound; harness/ts.cpp, Driver/Ts.lean; two's-complement "
              "uint64->int64 conversion of g++/x86-64; UBSan for undefined arithmetic.",
         technique="Lean 4 proof (arithmetic lemmas + invariant by induction over block operations) + differential correspondence",
@@ -81,7 +81,7 @@ CLAIMED = {
              "addresses an existing entry); hint bits = RFC 8618 and pairwise distinct (translator-regenerated). Tie: the block the model "
              "builds + the model writer = the bytes of the block the library wrote for the same records and hints (bld driver, up to the "
              "hash-map order of the address-event array); plus the RFC projection via the independent Lean reader (single bit cleared/alone, "
-             "random masks, unreachable = 0) and sessions editing hints in place through get_active_block_parameters_ref() before a rotation.",
+             "random masks, unreachable = 0) and sessions editing hints in place through get_active_block_parameters_ref() before a rotation. Also several parameter sets switched back and forth between blocks, and application-built blocks written, cleared, refilled and written again.",
         note="Trusted: Model/Builder.lean is hand-written (tied byte for byte by the bld correspondence); generic record values are unbounded "
              "naturals in the model (the C++ members are fixed-width); tools/cdnsgen.py project_qr, Spec/Cdns.lean reachability as second oracle.",
         technique="Lean 4 proof (invariants by induction over record sequences: hint guards, reachability, referential closure) + byte-exact model/implementation correspondence", design="§4 C04"),
@@ -97,13 +97,13 @@ CLAIMED = {
              "buffered block = storable records in order, once), aec_totals, flush_rule (block written iff an array reaches max(1,max)), "
              "blocks_bounded (every written block non-empty and within its own limit), counters_match. Tied by EXHAUSTIVE short call "
              "sequences (length<=4 quick / 5 thorough over 9 ops x 4 sizes x 3 hint settings) comparing returns, counters and block "
-             "structure of the real exporter with the Lean model and the reference, plus random long sessions.",
+             "structure of the real exporter with the Lean model and the reference, plus random long sessions. Maxima around 2^32 and up to 2^64-1 included.",
         note="Trusted: records abstracted to ids + stored flag (projection is C04); harness/file.cpp, Driver/Exm.lean, tools/refexp.py.",
         technique="Lean 4 proof (invariants by induction over exporter operations) + exhaustive bounded correspondence", design="§4 C12"),
     "C13": dict(
         text="Lean 4: closed_immutable (a rotated output never changes), output_shape (empty or header+blocks+one break), params_cover "
              "(under the documented duty), carry_over; conservation across outputs from C12. Tied by random sessions with rotations to "
-             "names/descriptors, export 0/1, consecutive empty rotations, late parameter sets, all compression modes.",
+             "names/descriptors, export 0/1, consecutive empty rotations, late parameter sets, all compression modes. Also rotations to the name of the output that is open (the closed output must be visible and complete before it is replaced) and outputs of every size modulo the staging buffer.",
         note="Trusted: as C12; rotate_output(int) on a name-opened exporter (documented misuse) is outside the model.",
         technique="Lean 4 proof (invariants over exporter operations) + differential correspondence", design="§4 C13"),
     "C05": dict(
@@ -114,7 +114,7 @@ CLAIMED = {
              "block array cut at ANY byte offset, returns exactly the blocks wholly inside the cut (for the exporter's encoding and every "
              "equivalent well-formed re-encoding) and then CdnsDecoderEnd; readBlock_cut - a cut inside a block never yields a value. Tied by "
              "decoder-level runs at the buffer multiples and by cutting exporter-produced files of 1-4 windows at every point around window "
-             "multiples and block boundaries: library = expectation = schema model (blkc driver) on every cut.",
+             "multiples and block boundaries: library = expectation = schema model (blkc driver) on every cut. end_is_sticky / after_end_every_call_ends: once read_to_buffer has reported the end, the state it leaves makes every later call report it again (runWS keeps the state across a throw); tied by sessions that go on after E:end, multi-byte arguments straddling window multiples, truncated strings read and skipped, unreadable streams of four kinds, files with unknown members cut everywhere.",
         note="Trusted: std::istream read/gcount/eof semantics modelled in Model/Window.lean; Model/File.lean readBlock transcribes "
              "CdnsReader::read_block (tied by the blkc correspondence).",
         technique="Lean 4 proof (refinement + generic theorems over all decoder programs + concrete block reader) + differential correspondence / cut-point enumeration", design="§4 C05"),
@@ -126,7 +126,7 @@ CLAIMED = {
              "width_*, indef_*, chunked_*, unknown_member_ignored, member_order_irrelevant (any permutation, distinct keys), nested_array, "
              "nested_members. Decoder level: skip_exact for any well-formed unknown value, keys beyond int64 saturate (big_key_not_small). "
              "Tie: exporter-produced files rewritten by random compositions of all rewrites; library reader dump(original) = dump(rewritten) "
-             "= schema-model reader on the rewritten file (sch/blk drivers); the independent Lean reader confirms each rewrite kept the meaning.",
+             "= schema-model reader on the rewritten file (sch/blk drivers); the independent Lean reader confirms each rewrite kept the meaning. RFC 8618-level rewrites too: table entries written twice, blocks of parameter set 0 without block-parameters-index.",
         note="Trusted: tools/cborgen.py rewrites, Spec/Cdns.lean, Model/Structs.lean schema table. The resolution of indexes/time offsets after "
              "the raw read is outside the schema model (independent interpretation Spec.Cdns).",
         technique="Lean 4 proof (reader computes a syntax-independent denotation; rewrite lemmas) + metamorphic differential testing", design="§4 C08"),
@@ -137,7 +137,7 @@ CLAIMED = {
              "runW_refines) and struct_output_wellformed; preamble keys = RFC 8618. The model reader/writer is tied to the code by writing random "
              "preambles (versions 0..255, optional private version, 1..8 parameter sets, every optional subset, full-width integers, empty/long "
              "lists, arbitrary text, collection parameters absent/empty/partial/full) with the library and comparing bytes with the model writer "
-             "and values with the library reader, the model reader and the independent Lean reader, member for member.",
+             "and values with the library reader, the model reader and the independent Lean reader, member for member. Parameter sets are also handed over through add_block_parameters (some objects twice: the caller's object must stay intact); max_block_items 0 and 2^32.",
         note="Trusted: Model/Structs.lean schema table (member kinds, optionality) - checked only by the correspondence; harness records.h renders every member.",
         technique="Lean 4 proof (generic schema round trip) + differential write/read against the model and an independent Lean reader", design="§4 C09"),
     "C11": dict(
@@ -154,7 +154,7 @@ CLAIMED = {
              "the same items), own_cell_only / copy_independent (a table with own references consults only its own storage: mutating, clearing "
              "or destroying the source cannot change the copy), add_frames_others (the copy never writes the source), and the refutation "
              "shallow_copy_dangles of the implicitly generated copy. Tied by histories of copy/move/assign/destroy/mutate over real "
-             "CdnsBlockRead objects under ASan vs model vs value-semantics reference.",
+             "CdnsBlockRead objects under ASan vs model vs value-semantics reference. Histories include items, block statistics (present/absent) and the three read cursors of CdnsBlockRead (a copy reads from the beginning and keeps reading after its source is gone).",
         note="Trusted: a block = nine tables + plain vectors/maps copied by value (the vectors are not modelled); AddressSanitizer exposes "
              "dangling references; std::deque reference stability on move.",
         technique="Lean 4 proof (frame/ownership invariant over an explicit heap) + differential correspondence under ASan", design="§4 C19"),
@@ -173,7 +173,7 @@ CLAIMED = {
              "close, rename; any number of outputs, repeated names, arbitrary initial file system) at EVERY crash point a final name holds "
              "the old file or a complete output. Tied by (1) the real syscall trace (write/writev/rename interposed) vs the model's "
              "canonical trace, file closed before rename; (2) real crash enumeration: _exit before the k-th syscall for every k of every "
-             "scenario (plain/gzip/xz, rotations, rotation onto an existing name, destruction with/without buffered data).",
+             "scenario (plain/gzip/xz, rotations, rotation onto an existing name, destruction with/without buffered data). (3) the same guarantee when writes are refused or cut short instead of the process dying (every k, any output); (4) cdns-merge under strace: the final name is touched only by the closing rename, SIGKILL before each output-related call leaves the earlier file intact; stale .part files; outputs of every size modulo the staging buffer.",
         note="Partial: process death only (no fsync/power-loss ordering), rename(2) atomicity and libstdc++ ofstream trusted; fclose is not "
              "interposable, 'closed before rename' is read from /proc/self/fd.",
         technique="Lean 4 proof (trace invariant over all prefixes) + syscall-trace correspondence + exhaustive crash-point enumeration", design="§4 C15"),
@@ -184,7 +184,7 @@ CLAIMED = {
              "the implementation: every fault point k (ENOSPC / EIO / short; single and persistent) of scripted scenarios x "
              "{name,descriptor} x {none,gzip,xz} injected through interposed write/writev; oracle: loss => exception no later than the closing "
              "rotate; throwing write_block keeps its records; rotate to a healthy destination succeeds; next write_block yields a valid file "
-             "with the kept records (validated by the Lean reader).",
+             "with the kept records (validated by the Lean reader). Also: destinations that cannot be opened (invalid descriptor, missing directory) and recovery from them; the output between two rotations stays empty; a block written to the output a throwing rotation had opened is not lost silently. Small state machines of the compressor and exporter layers across a throwing rotation (cw_write_after_rotation_is_not_dropped, ex_header_after_rotation; the pre-repair behaviour refuted by witness).",
         note="Partial: encoder staging buffer and compressor layers only propagate the bottom writers' exceptions - composition tied by "
              "fault injection, not proved. Interpretation: a rotate_output after an already REPORTED failure returns normally.",
         technique="Lean 4 proof over fault-schedule models + exhaustive fault-point injection via syscall interposition", design="§4 C16"),
@@ -195,7 +195,7 @@ CLAIMED = {
              "skip_item is iterative with linear fuel (C07.skip_exact_linear); every index get_readable_dname reads/writes is in bounds for "
              "EVERY byte string (dname_in_bounds). Failing-input search on the implementation: valid files, structure-aware mutations "
              "(lying length heads up to 2^64-1, tree edits, truncation), byte mutations, nesting bombs, random bytes through reader + "
-             "accessors + all renderers + block copies in-process under ASan/UBSan (allocation cap, alarm) and through the 5 CLI tools.",
+             "accessors + all renderers + block copies in-process under ASan/UBSan (allocation cap, alarm) and through the 5 CLI tools. Added after the seeded rounds: every numeric field x boundary value and every string x hostile payload (printf directives, NULs) through reader and tools; the largest single allocation request per input must stay proportional to it (sanitizer malloc hook); tables of look-alike entries must read as fast as same-shape controls (time).",
         note="Partial proof by nature: that every memory access of the C++ is one of the modelled kinds is established only by the "
              "sanitizer-instrumented search; hash-flooding cost not modelled; UBSan alignment check excluded (hash.h type-punned loads, x86).",
         technique="Lean 4 proofs of per-layer bounds + sanitizer-instrumented structure-aware mutation search", design="§4 C03"),
@@ -205,7 +205,7 @@ CLAIMED = {
              "mismatch_contributes_nothing, blocks_in_order. Tied by the real cdns-merge / cdns-itemcount binaries (sanitizer builds from "
              "the working tree) on tuples of 1..6 files with unreadable, empty, version-mismatched, truncated and duplicated members; "
              "merged output read by the library reader and the independent Lean reader vs the expectation assembled from the Lean "
-             "model's structure; itemcount output vs independent counts for all option combinations.",
+             "model's structure; itemcount output vs independent counts for all option combinations. The pool also holds files as other writers lay them out (duplicate table entries, one address-event key in several items, item-less blocks, absent block-parameters-index, unknown members), twins differing only in tick rate or in collection parameters, private version 0 vs absent; tuples may start with an unreadable member; in-place merges.",
         note="Trusted: parameter sets and block contents abstract ids in the model (their unchanged copying is C01/C09); Driver/Mrg.lean.",
         technique="Lean 4 proof (invariant of pass 1 map) + differential correspondence with the real tools", design="§4 C18"),
     "C20": dict(
@@ -213,7 +213,7 @@ CLAIMED = {
              "sequential per-thread results) + generated obligations over the inventory rebuilt by translator T2 from the working "
              "tree's objects: no_shared_mutable (every writable static-storage symbol is const-qualified, thread-local or runtime data), "
              "no_nonreentrant_call. Failing-schedule search: ThreadSanitizer build, 2..16 threads with independent exporter / reader / "
-             "renderer workloads (all compression modes), injected yields, per-thread results vs sequential run.",
+             "renderer workloads (all compression modes), injected yields, per-thread results vs sequential run. Each workload also: a failed rotation must not touch the old descriptor number afterwards; a block with 48 address-event keys is written and read back (hash order must not depend on the thread).",
         note="Partial: sharing through application-provided pointers is outside the inventory (excluded by the property); libstdc++, "
              "zlib, liblzma trusted thread-safe for distinct objects; C++ memory model trusted.",
         technique="Lean 4 proof + translator-regenerated symbol inventory (decide) + ThreadSanitizer schedule search", design="§4 C20"),
